@@ -342,8 +342,15 @@ func intBounds(t *smt.Term) (lo, hi *big.Int) {
 		if t.Val.IsInt() {
 			return new(big.Int).Set(t.Val.Num()), new(big.Int).Set(t.Val.Num())
 		}
+	case "var":
+		if b, ok := t.C.VarBounds[t.Name]; ok {
+			return big.NewInt(b[0]), big.NewInt(b[1])
+		}
 	case "mod":
 		if m := t.Args[1]; m.IsConst() && m.Val.Sign() > 0 {
+			if l, h := intBounds(t.Args[0]); l != nil && l.Sign() >= 0 && h.Cmp(m.Val.Num()) < 0 {
+				return l, h // already within [0, m): the reduction is the identity
+			}
 			return big.NewInt(0), new(big.Int).Sub(m.Val.Num(), big.NewInt(1))
 		}
 	case "+":
@@ -374,6 +381,15 @@ func pow2Divisor(t *smt.Term) uint {
 		return 64
 	case "*":
 		return pow2Divisor(t.Args[0]) + pow2Divisor(t.Args[1])
+	case "mod":
+		// (x mod 2^w) keeps the low zero bits of x (up to w)
+		if m := t.Args[1]; m.IsConst() && m.Val.IsInt() && m.Val.Sign() > 0 && m.Val.Num().BitLen()-1 == int(m.Val.Num().TrailingZeroBits()) {
+			d := pow2Divisor(t.Args[0])
+			if w := uint(m.Val.Num().BitLen() - 1); d > w {
+				d = w
+			}
+			return d
+		}
 	case "+":
 		a, b := pow2Divisor(t.Args[0]), pow2Divisor(t.Args[1])
 		if a < b {
